@@ -83,6 +83,7 @@ type peerSpec struct {
 	recSize  int    // record size of the "record" consumption policy (0: 2..4 by seed)
 	openHold int    // milliseconds OnOpen keeps the loop busy (the peer's data and its FIN pile up meanwhile)
 	budget   int    // bytes of big reply frames (0: by socket buffer size and reader speed)
+	sendOnly int    // the peer stops sending after this many bytes (0: it sends everything): the handler is left with an unfinished stream
 	// runtime
 	delivered int64 // bytes the handler has been given (for lock-step peers)
 	laddr     string
@@ -91,23 +92,26 @@ type peerSpec struct {
 }
 
 type vconn struct {
-	spec      *peerSpec
-	c         Conn
-	h         int
-	rng       *vsup.Rng
-	consumed  int
-	kOut      int // next frame seq of writer 0
-	outBytes  int // bytes of frames written by the handler so far
-	callbacks int
-	finSent   bool
-	asyncLeft int32
-	asyncCbs  int32 // asynchronous writes issued whose callback has not run yet
-	closed    bool
-	lazyLeft  int
-	dupFd     int           // descriptor obtained through Conn.Dup (ours to close), 0 if none
-	floodGate chan struct{} // closed when the asynchronous writers have issued the requests that are to pile up
-	floodOnce sync.Once
-	floodLeft int32 // writers that have not finished piling up yet
+	spec       *peerSpec
+	c          Conn
+	h          int
+	rng        *vsup.Rng
+	consumed   int
+	kOut       int // next frame seq of writer 0
+	outBytes   int // bytes of frames written by the handler so far
+	callbacks  int
+	finSent    bool
+	asyncLeft  int32
+	asyncCbs   int32 // asynchronous writes issued whose callback has not run yet
+	closed     bool
+	lazyLeft   int
+	dupFd      int           // descriptor obtained through Conn.Dup (ours to close), 0 if none
+	floodGate  chan struct{} // closed when the asynchronous writers have issued the requests that are to pile up
+	floodOnce  sync.Once
+	floodLeft  int32         // writers that have not finished piling up yet
+	midReached chan struct{} // closed by the callback of a frame in the middle of the pile (the loop then waits there)
+	tailDone   chan struct{} // closed by writer 1 once it has issued its further frames
+	midOnce    sync.Once
 }
 
 type vhandler struct {
@@ -221,7 +225,8 @@ func (h *vhandler) OnOpen(c Conn) (out []byte, action Action) {
 	if atomic.CompareAndSwapInt32(&h.wantTid, 1, 0) {
 		atomic.StoreInt32(&h.loopTid, int32(unix.Gettid()))
 	}
-	vc := &vconn{spec: sp, c: c, h: hd, rng: vsup.NewRng(sp.seed), lazyLeft: 3, floodGate: make(chan struct{})}
+	vc := &vconn{spec: sp, c: c, h: hd, rng: vsup.NewRng(sp.seed), lazyLeft: 3, floodGate: make(chan struct{}),
+		midReached: make(chan struct{}), tailDone: make(chan struct{})}
 	h.conns.Store(c, vc)
 	h.rec.emit("Open", "c", sp.id, "h", hd, "g", g, "raddr", raddr, "laddr", laddr, "fd", c.Fd(), "loop", c.(*conn).loop.idx)
 	atomic.AddInt32(&h.opened, 1)
@@ -346,8 +351,18 @@ func (h *vhandler) asyncWriter(vc *vconn, w int) {
 		total += 40 // ... and goes on issuing while the loop works the pile off (issue order must still hold)
 	}
 	for k := 0; k < total; k++ {
-		if sp.flood && k == sp.asyncN && atomic.AddInt32(&vc.floodLeft, -1) == 0 {
-			vc.floodOnce.Do(func() { close(vc.floodGate) })
+		if sp.flood && k == sp.asyncN {
+			if atomic.AddInt32(&vc.floodLeft, -1) == 0 {
+				vc.floodOnce.Do(func() { close(vc.floodGate) })
+			}
+			if w == 1 {
+				// the further frames of writer 1 are issued while the loop is in the middle of the pile (it waits in
+				// the callback of frame asyncN/2): the queues are partly worked off at that moment
+				select {
+				case <-vc.midReached:
+				case <-time.After(5 * time.Second):
+				}
+			}
 		}
 		body := []int{0, 1, 37, 500, 4000, 20000, 70000}[rng.Intn(7)]
 		if sp.flood {
@@ -355,10 +370,18 @@ func (h *vhandler) asyncWriter(vc *vconn, w int) {
 		}
 		f := mkFrame(sp.id, w, k, body)
 		a := h.newReq()
+		kk := k
 		cb := func(c Conn, err error) error {
 			h.rec.emit("ACb", "a", a, "c", sp.id, "err", errClass(err), "g", vsup.Goid())
 			atomic.AddInt32(&h.pendingCb, -1)
 			atomic.AddInt32(&vc.asyncCbs, -1)
+			if sp.flood && w == 1 && kk == sp.asyncN/2 {
+				vc.midOnce.Do(func() { close(vc.midReached) })
+				select {
+				case <-vc.tailDone:
+				case <-time.After(5 * time.Second):
+				}
+			}
 			return nil
 		}
 		atomic.AddInt32(&vc.asyncCbs, 1)
@@ -380,6 +403,9 @@ func (h *vhandler) asyncWriter(vc *vconn, w int) {
 		if rng.Intn(4) == 0 && !sp.flood {
 			time.Sleep(time.Duration(rng.Intn(300)) * time.Microsecond)
 		}
+	}
+	if sp.flood && w == 1 {
+		close(vc.tailDone)
 	}
 	h.asyncDone(vc)
 }
